@@ -13,7 +13,19 @@ def main():
     seed = int(os.environ.get('VERIF_SEED', '1'))
     mod = importlib.import_module(a.pid.lower())
     t0 = time.time()
-    if a.replay: sys.exit(mod.replay(a.replay))
+    if a.replay:
+        import re, subprocess, runner
+        head = open(a.replay).read()
+        mm = re.search(r'# replay for harness (\S+) \((\S+)\)', head); m2 = re.search(r'# config=(\S+) defines=(.*)', head)
+        spec = dict(entry=mm.group(1), src=mm.group(2), config=m2.group(1), defines=m2.group(2).split(), params=[])
+        rc = 0
+        for asan in (False, True):
+            exe = runner.native_for(spec, asan)
+            r = subprocess.run([exe, spec['entry'].lstrip('@'), a.replay], stdout=subprocess.PIPE, stderr=subprocess.STDOUT, text=True)
+            print('--- %s build: exit %d' % ('ASan' if asan else '-O2', r.returncode)); print(r.stdout[-1500:])
+            if r.returncode not in (0, 3): rc = 1
+        if rc: print('VIOLATION property=%s replay=%s' % (a.pid, a.replay))
+        sys.exit(rc)
     sys.exit(mod.main(a.tier, seed, t0, a.only))
 
 
